@@ -1,0 +1,7 @@
+//go:build !verif
+
+package npm
+
+import "deps.dev/util/resolve"
+
+func verifTree(*resolve.Graph, *treeNode) {}
